@@ -360,7 +360,12 @@ class Harness:
             else:
                 target = items[lab["pos"] - 1] if 0 < lab["pos"] <= len(items) else self.new_item(1)
                 o["key"] = self.ident(target)
-                fn = lambda: b.remove_platform(target)  # noqa: E731
+                if self.kind == "Optical":
+                    fn = lambda: b.channels.remove(target)  # noqa: E731
+                elif self.kind == "Events":
+                    fn = lambda: b.events.remove(target)  # noqa: E731
+                else:
+                    fn = lambda: b.remove_platform(target)  # noqa: E731
         elif op == "assign":
             xs = [self.new_item(l, g, inst=i) for l, g in lab["pat"]]
             cs = lab["cs"]
